@@ -130,6 +130,7 @@ class E3Check(Check):
         "built_from_all_three", "align_checked_against_independent_umeyama",
         "built_from_pose_ndarray", "merge_with_shared_stamps",
         "merge_of_dict_view", "compute_plot_result",
+        "transform_left_with_propagate_flag",
     )
 
     def setup_worker(self):
